@@ -420,7 +420,13 @@ def gen_levelset(rng, ticks):
                 tag = 'sphere-tangent'
         return dict(kind='sphere', center=_fl(c), radius=_f(rad), sign=_f(rng.choice([-1., 1.])), tag=tag)
     if r < .92:
+        # product of two planes.  Neither factor passes EXACTLY through mesh vertices: a level set that vanishes identically on a
+        # whole element edge/face while changing sign inside the adjacent element is degenerate (nutils keeps the zero edge on both
+        # sides, so trim(f) and trim(-f) overlap); "nearly through" is kept.
         p1, tag = plane()
+        if 'through' in tag:
+            p1['offset'] = _f(p1['offset'] + float(rng.choice([-1., 1.])) * float(rng.choice([1e-9, 1e-6, 2e-3])))
+            tag = tag.replace('through', 'near')
         p2, _ = plane(allow_special=False)
         return dict(kind='product', planes=[p1, p2], tag='product-' + tag)
     # general quadric
